@@ -11,6 +11,7 @@ structure D where
   s : State := init
   held : List (List Nat) := []
   hs : List Bool := [true]
+  hook : Bool := false      -- `hook` case: the signal does not exist until the first `hlisten`
 
 def outStr : Out → String
   | Out.val v => s!"v{v}"
@@ -58,6 +59,14 @@ def burstTok (s : State) (queued : List Nat) (tok : String) : State × List Nat 
 
 def doLine (d : D) (ws : List String) : D × String :=
   let s := d.s
+  if d.hook then
+    -- hook_up(): create the state, subscribe, then hand out the collector (handle 0) = `listen` on the initial state
+    match ws with
+    | ["hlisten", sc] =>
+        let (s1, r) := step s (Op.listen (parseScript sc))
+        ({ d with s := s1, hook := false }, match r with | Res.id l => s!"hlisten L{l}" | _ => "bad-op")
+    | _ => (d, "bad-op")
+  else
   match ws with
   | ["listen", sc] =>
       let (s1, r) := step s (Op.listen (parseScript sc))
@@ -129,9 +138,9 @@ partial def loop (lines : Array String) (i : Nat) (st : Option D) : IO Unit := d
   if h : i < lines.size then
     let ws := words lines[i]
     match ws, st with
-    | ("case" :: id :: _), _ =>
+    | ("case" :: id :: rest), _ =>
         IO.println s!"case {id}"
-        loop lines (i+1) (some {})
+        loop lines (i+1) (some { hook := rest.getD 2 "" == "hook" })
     | ["end"], some d =>
         let (d1, head) := doEnd d
         IO.println (withEvents head (events d.s d1.s))
